@@ -116,6 +116,8 @@ def run(pm, ctx):
                     ctx.ok("C04-c", f"{site}: score", repr(sc))
                 elif K.name == "Kauri" and (is_top(sc) or isinstance(sc, Num)):
                     ctx.ok("C04-c", f"{site}: score", "scalar (compiled objective)")
+                elif is_top(sc):
+                    ctx.undecided_site("C04-c", f"{site}: score", f"abstract value of score: {sc!r}")
                 else:
                     ctx.violation("C04-c", K.unit.relpath, f"{K.name}.score", "score", f"score is {sc!r}, expected a scalar", line=K.node.lineno,
                                   site=f"{site}: score")
@@ -236,8 +238,36 @@ def wiring(pm, ctx):
     stores = [s_ for s_ in cfg.nodes if isinstance(s_, ast.Assign) and attr_chain(s_.targets[0]) == "self.optimiser_"]
     want = {"sgd": "SGDOptimizer", "adam": "AdamOptimizer"}
     probs, n_cases = [], 0
-    for st_ in stores:
+    def _opt_cases(st_):
+        """(literals, constructor call) cases of the stored value; a call of a loop-free private method of the class is followed into its returns"""
+        from ..flow import return_cases
+        out_ = []
         for lits, val in value_cases(cfg, st_, st_.value):
+            if isinstance(val, ast.Call) and isinstance(val.func, ast.Attribute) and isinstance(val.func.value, ast.Name) and val.func.value.id == "self" \
+                    and val.func.attr in pm.classes["DiscriminativeModel"].methods:
+                try:
+                    rc = return_cases(pm.classes["DiscriminativeModel"].methods[val.func.attr])
+                except Exception:
+                    rc = None
+                if rc and all(k_ == "return" and v_ is not None for k_, v_, _ in rc):
+                    out_.extend((frozenset(lits) | frozenset(l_), v_) for _, v_, l_ in rc)
+                    continue
+            out_.append((lits, val))
+        return out_
+    table_ok = None
+    for st_ in stores:
+        v0 = st_.value
+        # a lookup table NAME[self.solver](...) with a module-level literal {"sgd": SGDOptimizer, "adam": AdamOptimizer}
+        if isinstance(v0, ast.Call) and isinstance(v0.func, ast.Subscript) and isinstance(v0.func.value, ast.Name) and norm_src(v0.func.slice) == "self.solver" \
+                and isinstance(u.assigns.get(v0.func.value.id), ast.Dict):
+            d_ = u.assigns[v0.func.value.id]
+            got_ = {k_.value: norm_src(v_) for k_, v_ in zip(d_.keys, d_.values) if isinstance(k_, ast.Constant)}
+            table_ok = got_ == want
+            if not table_ok:
+                probs.append(f"the solver table {got_} does not map sgd/adam to their optimisers")
+            n_cases += 2
+            continue
+        for lits, val in _opt_cases(st_):
             if not isinstance(val, ast.Call):
                 probs.append(f"`{norm_src(val)[:50]}` is not a constructor call")
                 continue
